@@ -275,8 +275,19 @@ func runC14(c *Collector, r *Rng, thorough bool) {
 			}
 			lzCount[ci.name+"/"+which] = found
 		}
+		// coordinates that END in a zero octet (and ones that begin and end in one): significant, not padding
+		for _, which := range []string{"x", "y", "d"} {
+			for i := 0; i < 4000; i++ {
+				k, _ := ecdsa.GenerateKey(ci.curve, r)
+				v := map[string]*big.Int{"x": k.X, "y": k.Y, "d": k.D}[which]
+				if vb := v.Bytes(); vb[len(vb)-1] == 0 {
+					roundTrip("trailing-zero-"+which+"/"+ci.name, k)
+					break
+				}
+			}
+		}
 		// small private scalars: d with many leading zero bytes
-		for _, d := range []int64{1, 2, 255, 256, 65537} {
+		for _, d := range []int64{1, 2, 255, 256, 65537, 65536, 1 << 24} {
 			roundTrip("small-d/"+ci.name, keyWithSmallD(ci.curve, big.NewInt(d)))
 		}
 		// the largest private scalars: d = n-1, n-2, n-256
@@ -355,6 +366,7 @@ func runC14(c *Collector, r *Rng, thorough bool) {
 		}
 	}
 	c14KeySets(c, r)
+	c14SharedBuffers(c, r)
 }
 
 // serialisations a caller keeps while it serialises other keys: they never change
@@ -528,6 +540,134 @@ func runC15(c *Collector, r *Rng, thorough bool) {
 		}
 		b, desc := mutateBytes(r, t.Ser())
 		c15One(c, "byte-fault/"+desc, b)
+	}
+	// exactly one item: a valid key followed by anything (an octet, a second key, a break), and a valid key whose map
+	// head announces one pair fewer than follow, is not a COSE_Key
+	for _, ci := range curves {
+		k1, err1 := ecdsa.GenerateKey(ci.curve, r)
+		if err1 != nil {
+			continue
+		}
+		for _, private := range []bool{true, false} {
+			var ck *cose.Key
+			var err error
+			if private {
+				ck, err = cose.NewKeyFromPrivate(k1)
+			} else {
+				ck, err = cose.NewKeyFromPublic(&k1.PublicKey)
+			}
+			if err != nil {
+				continue
+			}
+			b, err := ck.MarshalCBOR()
+			if err != nil || len(b) == 0 {
+				continue
+			}
+			c15One(c, "exactly-one-item/valid", b)
+			for _, tail := range [][]byte{{0x00}, {0xff}, {0xf6}, {0x40}, b, {0xa0}} {
+				in := append(append([]byte{}, b...), tail...)
+				d := decodeCase(c, "exactly-one-item/trailing", "DKey", in)
+				if d.err == nil && !d.paniced {
+					c.Fail("C15/accepted-malformed", fmt.Sprintf("the key decoder accepted a valid key followed by %d more octets", len(tail)), map[string]any{"data": hx(in)})
+				}
+			}
+			short := append([]byte{}, b...)
+			if short[0]&0xe0 == 0xa0 && short[0]&0x1f > 1 && short[0]&0x1f < 24 {
+				short[0]--
+				d := decodeCase(c, "exactly-one-item/short-head", "DKey", short)
+				if d.err == nil && !d.paniced {
+					c.Fail("C15/accepted-malformed", "the key decoder accepted a map whose head announces one pair fewer than follow", map[string]any{"data": hx(short)})
+				}
+			}
+		}
+	}
+	// a key object used once and then edited (private material removed, the public point removed, key_ops restricted,
+	// the key re-keyed to another curve): what it yields afterwards is decided by what it holds now
+	for _, ci := range curves {
+		k1, err1 := ecdsa.GenerateKey(ci.curve, r)
+		if err1 != nil {
+			continue
+		}
+		for _, edit := range []string{"remove-d", "remove-y", "ops-verify-only", "ops-sign-only", "ops-empty", "rekey-other-curve", "kty-symmetric"} {
+			ck, err := cose.NewKeyFromPrivate(k1)
+			if err != nil {
+				continue
+			}
+			sg0, e1 := ck.Signer()
+			vf0, e2 := ck.Verifier()
+			_, e3 := ck.PrivateKey()
+			_, e4 := ck.PublicKey()
+			if e1 != nil || e2 != nil || e3 != nil || e4 != nil || sg0 == nil || vf0 == nil {
+				continue
+			}
+			wantSigner, wantVerifier := true, true
+			switch edit {
+			case "remove-d":
+				delete(ck.Params, cose.KeyLabelEC2D)
+				wantSigner = false
+			case "remove-y":
+				delete(ck.Params, cose.KeyLabelEC2Y)
+				wantSigner, wantVerifier = false, false
+			case "ops-verify-only":
+				ck.Ops = []cose.KeyOp{cose.KeyOpVerify}
+				wantSigner = false
+			case "ops-sign-only":
+				ck.Ops = []cose.KeyOp{cose.KeyOpSign}
+				wantVerifier = false
+			case "ops-empty":
+				ck.Ops = []cose.KeyOp{}
+				wantSigner, wantVerifier = false, false
+			case "kty-symmetric":
+				ck.Type = cose.KeyTypeSymmetric
+				wantSigner, wantVerifier = false, false
+			case "rekey-other-curve":
+				other := curves[0]
+				if other.name == ci.name {
+					other = curves[1]
+				}
+				k2, _ := ecdsa.GenerateKey(other.curve, r)
+				ck2, err := cose.NewKeyFromPrivate(k2)
+				if err != nil {
+					continue
+				}
+				ck.Params = ck2.Params
+				ck.Algorithm = ck2.Algorithm
+				sg, e1 := ck.Signer()
+				vf, e2 := ck.Verifier()
+				c.Eval("edited-after-use/"+ci.name, edit, true)
+				if e1 != nil || e2 != nil {
+					c.Fail("C15/signer-error", fmt.Sprintf("a key object re-keyed to %s after use yields no signer / verifier: %v / %v", other.name, e1, e2), map[string]any{"curve": ci.name, "edit": edit})
+					continue
+				}
+				sig, serr := sg.Sign(r, []byte("m"))
+				if sg.Algorithm() != other.alg || vf.Algorithm() != other.alg || serr != nil || !refVerify(other.alg, &k2.PublicKey, []byte("m"), sig) {
+					c.Fail("C15/signer-algorithm", fmt.Sprintf("a key object re-keyed from %s to %s after use: signer algorithm %v, verifier algorithm %v, signature valid under the new key: %v", ci.name, other.name, sg.Algorithm(), vf.Algorithm(), serr == nil && refVerify(other.alg, &k2.PublicKey, []byte("m"), sig)), map[string]any{"curve": ci.name, "edit": edit})
+				}
+				continue
+			}
+			_, se := ck.Signer()
+			_, ve := ck.Verifier()
+			_, pe := ck.PrivateKey()
+			c.Eval("edited-after-use/"+ci.name, edit, true)
+			rep := map[string]any{"curve": ci.name, "edit": edit}
+			if (se == nil) != wantSigner {
+				key := "C15/signer-without-private"
+				if edit != "remove-d" && edit != "remove-y" {
+					key = "C15/signer-ignores-key-ops"
+				}
+				c.Fail(key, fmt.Sprintf("a key object edited after it had yielded a signer (%s): Signer() returns err=%v, expected a signer=%v", edit, se, wantSigner), rep)
+			}
+			if (ve == nil) != wantVerifier {
+				key := "C15/verifier-without-public"
+				if edit != "remove-d" && edit != "remove-y" {
+					key = "C15/verifier-ignores-key-ops"
+				}
+				c.Fail(key, fmt.Sprintf("a key object edited after it had yielded a verifier (%s): Verifier() returns err=%v, expected a verifier=%v", edit, ve, wantVerifier), rep)
+			}
+			if (edit == "remove-d" || edit == "remove-y" || edit == "kty-symmetric") && pe == nil {
+				c.Fail("C15/signer-without-private", fmt.Sprintf("a key object edited after use (%s) still yields a private key", edit), rep)
+			}
+		}
 	}
 	// byte-valued parameters (x, y, d, k, kid, base IV) given as text strings of the same length, and key_ops outside
 	// the registry on otherwise usable keys
@@ -1232,14 +1372,30 @@ func runC17(c *Collector, r *Rng, thorough bool) {
 			continue
 		}
 		var earlier []heldSig
-		for i := 0; i < n; i++ {
+		// content lengths around the block sizes of the hash functions and around the sizes at which an implementation
+		// might start to read its input in pieces
+		lengths := []int{0, 1, 55, 56, 63, 64, 65, 111, 112, 127, 128, 129, 4095, 4096, 4097, 32767, 32768, 32769, 65535, 65536, 65537, 131072, 1 << 20, 1<<20 + 1}
+		for i := 0; i < n+len(lengths); i++ {
 			msg := r.Bytes(r.Intn(200))
+			if i >= n {
+				msg = r.Bytes(lengths[i-n])
+			}
 			digest := digestOf(algHash(k.alg), msg)
-			rep := map[string]any{"alg": k.alg.String(), "msg": hx(msg)}
+			rep := map[string]any{"alg": k.alg.String(), "msg_len": len(msg), "msg": hx(trimTo(msg, 200))}
+			// the last octet matters
+			if len(msg) > 0 {
+				if s0, e0 := sg.Sign(r, msg); e0 == nil {
+					tampered := append([]byte{}, msg...)
+					tampered[len(tampered)-1] ^= 1
+					if vf.Verify(tampered, s0) == nil {
+						c.Fail("C17/digest-equivalence", fmt.Sprintf("a signature over %d octets verifies for content whose last octet differs", len(msg)), rep)
+					}
+				}
+			}
 			s1, e1 := sg.Sign(r, msg)
 			s1copy := append([]byte{}, s1...)
 			s2, e2 := ds.SignDigest(r, digest)
-			c.Eval("digest-equivalence/"+k.alg.String(), hx(msg), true)
+			c.Eval("digest-equivalence/"+k.alg.String(), fmt.Sprint(len(msg))+hx(trimTo(msg, 100)), true)
 			if e1 != nil || e2 != nil {
 				c.Fail("C17/digest-sign-failed", fmt.Sprintf("%v / %v", e1, e2), rep)
 				continue
@@ -1454,4 +1610,107 @@ func (m *meetingSigner) Sign(rnd io.Reader, digest []byte, opts crypto.SignerOpt
 		m.seen = fmt.Sprintf("the key was handed a digest of %d octets together with options naming %v", len(digest), opts.HashFunc())
 	}
 	return m.real.Sign(rnd, digest, opts)
+}
+
+// c14SharedBuffers: key material that lives in one contiguous buffer of the application (a key store read in one piece:
+// seed after seed, coordinate after coordinate), each COSE_Key built over its own sub-slice with capacity to spare:
+// converting any key back, building signers and verifiers, and serialising never writes outside (or inside) the
+// key's own octets - the buffer is unchanged and every key still converts to the key it was.
+func c14SharedBuffers(c *Collector, r *Rng) {
+	const n = 4
+	// Ed25519: seeds back to back, public keys back to back
+	{
+		seeds := make([]byte, 0, 32*n)
+		pubs := make([]byte, 0, 32*n)
+		var privs []ed25519.PrivateKey
+		for i := 0; i < n; i++ {
+			pub, priv, _ := ed25519.GenerateKey(r)
+			privs = append(privs, priv)
+			seeds = append(seeds, priv.Seed()...)
+			pubs = append(pubs, pub...)
+		}
+		keep := append([]byte{}, seeds...)
+		keepPubs := append([]byte{}, pubs...)
+		var keys []*cose.Key
+		for i := 0; i < n; i++ {
+			k, err := cose.NewKeyOKP(cose.AlgorithmEdDSA, pubs[32*i:32*i+32], seeds[32*i:32*i+32])
+			if err != nil {
+				return
+			}
+			keys = append(keys, k)
+		}
+		for i, k := range keys {
+			k.PrivateKey()
+			k.Signer()
+			k.PublicKey()
+			k.Verifier()
+			k.MarshalCBOR()
+			c.Eval("shared-buffer/ed25519", fmt.Sprint(i), true)
+		}
+		if !bytes.Equal(seeds, keep) || !bytes.Equal(pubs, keepPubs) {
+			c.Fail("C14/caller-bytes-changed", "converting COSE_Keys built over sub-slices of one buffer wrote into that buffer (Ed25519 seeds / public keys)", map[string]any{"before": hx(keep), "after": hx(seeds)})
+		}
+		for i, k := range keys {
+			pv, err := k.PrivateKey()
+			if e, ok := pv.(ed25519.PrivateKey); err != nil || !ok || !e.Equal(privs[i]) {
+				c.Fail("C14/private-differs", fmt.Sprintf("Ed25519 key %d of %d built over one buffer converts back to another private key after its neighbours were converted (%v)", i, n, err), map[string]any{"key": i})
+				continue
+			}
+			b, err := k.MarshalCBOR()
+			if err != nil {
+				continue
+			}
+			var back cose.Key
+			if back.UnmarshalCBOR(b) == nil {
+				if sg, err := back.Signer(); err == nil {
+					sig, _ := sg.Sign(r, []byte("m"))
+					if !ed25519.Verify(privs[i].Public().(ed25519.PublicKey), []byte("m"), sig) {
+						c.Fail("C14/signature-rejected", fmt.Sprintf("the signer built from serialised Ed25519 key %d of %d (one buffer) does not sign for that key", i, n), map[string]any{"key": i})
+					}
+				}
+			}
+		}
+	}
+	// EC2: x | y | d of each key back to back in one buffer
+	for _, ci := range curves {
+		buf := make([]byte, 0, 3*ci.n*n)
+		var privs []*ecdsa.PrivateKey
+		for i := 0; i < n; i++ {
+			k, err := ecdsa.GenerateKey(ci.curve, r)
+			if err != nil {
+				return
+			}
+			privs = append(privs, k)
+			buf = append(buf, k.X.FillBytes(make([]byte, ci.n))...)
+			buf = append(buf, k.Y.FillBytes(make([]byte, ci.n))...)
+			buf = append(buf, k.D.FillBytes(make([]byte, ci.n))...)
+		}
+		keep := append([]byte{}, buf...)
+		var keys []*cose.Key
+		for i := 0; i < n; i++ {
+			o := 3 * ci.n * i
+			k, err := cose.NewKeyEC2(ci.alg, buf[o:o+ci.n], buf[o+ci.n:o+2*ci.n], buf[o+2*ci.n:o+3*ci.n])
+			if err != nil {
+				break
+			}
+			keys = append(keys, k)
+		}
+		for i, k := range keys {
+			k.PrivateKey()
+			k.Signer()
+			k.PublicKey()
+			k.Verifier()
+			k.MarshalCBOR()
+			c.Eval("shared-buffer/"+ci.name, fmt.Sprint(i), true)
+		}
+		if !bytes.Equal(buf, keep) {
+			c.Fail("C14/caller-bytes-changed", "converting COSE_Keys built over sub-slices of one buffer wrote into that buffer ("+ci.name+" coordinates)", map[string]any{"curve": ci.name})
+		}
+		for i, k := range keys {
+			pv, err := k.PrivateKey()
+			if e, ok := pv.(*ecdsa.PrivateKey); err != nil || !ok || !e.Equal(privs[i]) {
+				c.Fail("C14/private-differs", fmt.Sprintf("%s key %d of %d built over one buffer converts back to another private key (%v)", ci.name, i, n, err), map[string]any{"key": i, "curve": ci.name})
+			}
+		}
+	}
 }
